@@ -15,6 +15,7 @@ import (
 	"strings"
 	"sync"
 	"time"
+	"unicode/utf8"
 
 	"github.com/junegunn/fzf/src/zsim"
 )
@@ -536,6 +537,13 @@ func runFilter(c *runCtx) {
 	c.plan = plan
 	plan.Lines.N = clampInt(plan.Lines.N, 0, 20000)
 	lines := genLines(plan.Lines)
+	for _, l := range lines {
+		if !utf8.ValidString(l) || len(l) != len([]rune(l)) {
+			// a read error could cut a record in the middle of a multi-byte character: C07 speaks of valid UTF-8
+			plan.ErrAt = -1
+			break
+		}
+	}
 	if plan.Decorate > 0 {
 		// a read error could cut a record in the middle of an escape sequence; what --ansi does
 		// with a partial sequence is outside the generator-known cases (C11 is not decided here)
